@@ -7,6 +7,7 @@ namespace SlipVerif.Theorems.C04
 open SlipVerif.Lambda SlipVerif.Lemmas.Lambda SlipVerif.Lemmas.LambdaParse
 
 deriving instance DecidableEq for Except
+deriving instance DecidableEq for CallResult
 
 /-- the key tail of a call is well formed: even length, a keyword at every even index, and —
     unless `&allow-other-keys` — every such keyword names a declared key parameter -/
@@ -463,6 +464,98 @@ theorem docConsistent_sound (names : List String) (min : Nat) (max : Option Nat)
     decide_eq_true_eq] at hc
   rw [bind_ok_iff, hc, ← countOK_iff_inArity]
   simp [hkey]
+
+/-! ### histories: a call sees the latest definition and nothing else -/
+
+/-- the latest definition of `n` in a history (stated without reference to `runHist`) -/
+def lastDef (n : String) : List Op → Option LL
+  | [] => none
+  | op :: ops =>
+    match lastDef n ops with
+    | some ll => some ll
+    | none =>
+      match op with
+      | .define m ll => if m = n then some ll else none
+      | .call _ _ => none
+
+/-- the definition in force for `n` after `ops`, starting from `env` -/
+def inForce (env : Env) (n : String) (ops : List Op) : Option LL :=
+  match lastDef n ops with
+  | some ll => some ll
+  | none => env.find n
+
+/-- **runHist_append_call** — a call at the end of any history (definitions, redefinitions with any
+    other lambda list, calls of any function with any keywords) is bound by `bind` on the latest
+    definition of the called name — `undefined` when there is none — and the earlier results are
+    unchanged. -/
+theorem runHist_append_call (env : Env) (ops : List Op) (n : String) (args : List Obj) :
+    runHist env (ops ++ [.call n args]) = runHist env ops ++ [callResult (inForce env n ops) args] := by
+  induction ops generalizing env with
+  | nil => simp [runHist, inForce, lastDef]
+  | cons op ops ih =>
+    cases op with
+    | define m ll =>
+      simp only [List.cons_append, runHist, ih]
+      congr 2
+      unfold inForce
+      simp only [lastDef]
+      cases lastDef n ops with
+      | some l => rfl
+      | none =>
+        by_cases hm : m = n <;> simp [Env.find, hm]
+    | call m as =>
+      simp only [List.cons_append, runHist, ih, List.cons.injEq, true_and]
+      congr 2
+      unfold inForce
+      simp only [lastDef]
+      cases lastDef n ops <;> rfl
+
+theorem lastDef_append (n : String) (a b : List Op) :
+    lastDef n (a ++ b) = match lastDef n b with | some ll => some ll | none => lastDef n a := by
+  induction a with
+  | nil => simp [lastDef]; cases lastDef n b <;> rfl
+  | cons op a ih =>
+    simp only [List.cons_append, lastDef, ih]
+    cases lastDef n b <;> rfl
+
+/-- **redefinition_replaces** — after `(defun n ll)` a call of `n` is bound by `ll` alone, whatever
+    was defined or called before (no key set, default or count of an earlier definition survives). -/
+theorem redefinition_replaces (env : Env) (pre : List Op) (n : String) (ll : LL) (calls : List Op)
+    (hc : ∀ op ∈ calls, ∃ m as, op = .call m as) (args : List Obj) :
+    runHist env (pre ++ .define n ll :: calls ++ [.call n args])
+      = runHist env (pre ++ .define n ll :: calls) ++ [.bound (bind ll args)] := by
+  rw [runHist_append_call]
+  congr 2
+  have hcalls : lastDef n calls = none := by
+    induction calls with
+    | nil => rfl
+    | cons op cs ih =>
+      obtain ⟨m, as, rfl⟩ := hc op (by simp)
+      simp [lastDef, ih (fun op h => hc op (by simp [h]))]
+  have : lastDef n (pre ++ .define n ll :: calls) = some ll := by
+    rw [lastDef_append]
+    simp [lastDef, hcalls]
+  simp [inForce, this, callResult]
+
+/-- **calls_leave_no_trace** — removing every call from a history does not change which definition
+    a later call sees. -/
+theorem calls_leave_no_trace (n : String) (ops : List Op) :
+    lastDef n (ops.filter (fun op => match op with | .define _ _ => true | .call _ _ => false)) = lastDef n ops := by
+  induction ops with
+  | nil => rfl
+  | cons op ops ih =>
+    cases op with
+    | define m ll => simp [List.filter, lastDef, ih]
+    | call m as =>
+      simp only [List.filter, lastDef, ih]
+      cases lastDef n ops <;> rfl
+
+example : runHist [] [.define "f" { req := ["a"], hasKey := true, keys := [{ name := "alpha" }] },
+                      .call "f" [.int 1, .kw "alpha", .int 2],
+                      .define "f" { req := ["a"], hasKey := true, keys := [{ name := "beta" }], aok := true },
+                      .call "f" [.int 1, .kw "beta", .int 2, .kw "alpha", .int 9]]
+    = [.bound (.ok [("a", .int 1), ("alpha", .int 2)]), .bound (.ok [("a", .int 1), ("beta", .int 2)])] := by
+  decide
 
 /-! ### the parser -/
 
